@@ -523,9 +523,82 @@ fn do_case(case: Vec<i128>) {
     }
 }
 
+/// Slices of zero-sized elements cost no memory, so their length can be anything: a length that agrees
+/// with N only modulo 2^32 (or any narrower comparison) must still be refused by every checked
+/// reinterpretation.  Direct oracle (case kind 9: [9, N, d, form], L = N + d * 2^32).
+#[cfg(target_pointer_width = "64")]
+fn huge_one<N: ArrayLength>(d: u64, form: i128) {
+    let l: usize = N::USIZE + (d as usize) * (1usize << 32);
+    emit_case(&[9, N::USIZE as i128, d as i128, form]);
+    let p = std::ptr::NonNull::<()>::dangling().as_ptr();
+    let shared: &[()] = unsafe { std::slice::from_raw_parts(p, l) };
+    let excl: &mut [()] = unsafe { std::slice::from_raw_parts_mut(p, l) };
+    // 0 accepted, 1 LengthError, 2 panic
+    let code: i128 = match form {
+        0 => match catch(move || GenericArray::<(), N>::from_slice(shared).len()) {
+            Ok(_) => 0,
+            Err(_) => 2,
+        },
+        1 => match catch(move || GenericArray::<(), N>::try_from_slice(shared).is_ok()) {
+            Ok(true) => 0,
+            Ok(false) => 1,
+            Err(_) => 2,
+        },
+        2 => match catch(move || GenericArray::<(), N>::from_mut_slice(excl).len()) {
+            Ok(_) => 0,
+            Err(_) => 2,
+        },
+        3 => match catch(move || GenericArray::<(), N>::try_from_mut_slice(excl).is_ok()) {
+            Ok(true) => 0,
+            Ok(false) => 1,
+            Err(_) => 2,
+        },
+        4 => match catch(move || <&GenericArray<(), N>>::try_from(shared).is_ok()) {
+            Ok(true) => 0,
+            Ok(false) => 1,
+            Err(_) => 2,
+        },
+        _ => match catch(move || <&mut GenericArray<(), N>>::try_from(excl).is_ok()) {
+            Ok(true) => 0,
+            Ok(false) => 1,
+            Err(_) => 2,
+        },
+    };
+    emit_obs(&[code]);
+    let want = if form == 0 || form == 2 { 2 } else { 1 };
+    if code != want {
+        emit_oracle(&format!(
+            "a slice of {} zero-sized elements was {} as a GenericArray of length {} (form {})",
+            l,
+            if code == 0 { "accepted" } else { "answered with the wrong kind of refusal" },
+            N::USIZE,
+            form
+        ));
+    }
+}
+
+#[cfg(target_pointer_width = "64")]
+fn huge_all() {
+    for d in [1u64, 2, 3] {
+        for form in 0..6i128 {
+            dist("huge_zst_slice");
+            huge_one::<U0>(d, form);
+            huge_one::<U3>(d, form);
+            huge_one::<U16>(d, form);
+        }
+    }
+}
+#[cfg(not(target_pointer_width = "64"))]
+fn huge_all() {}
+
 fn main() {
     let a = args();
     quiet_panics();
+    if a.extra.iter().any(|x| x == "--huge") {
+        huge_all();
+        flush_dist();
+        return;
+    }
     if let Some(c) = a.replay {
         do_case(c);
         return;
